@@ -37,9 +37,35 @@ func (s *syncer) pull(key string, prefix bool) (result map[string]*mvccpb.KeyVal
   ensures a-failed-read-is-never-content: err == nil ==> gRead && gReadErr == nil
   ensures a-single-key-pull-holds-at-most-that-key: err == nil && !prefix ==> result != nil && len(result) <= 1
 
+// the loop of run: one pull-compare-send at start, one per tick of the pull interval, one per watch event that
+// is neither a cancellation nor a progress notification - nothing else; a cancelled watch is closed and replaced
+// by a new watch of the same key; the loop ends only when the syncer is closed
+ghost var gPCS int        // pull-compare-send rounds so far
+ghost var gTicks int      // ticks of the pull interval received
+ghost var gChanges int    // watch events that report a change
+ghost var gCancels int    // watch cancellations received
+ghost var gWatches int    // watches opened
+ghost var gWatchKey string
+ghost var gWatchPrefix bool
+func (s *syncer) watch(key string, prefix bool) (w clientv3.Watcher, ch clientv3.WatchChan)
+  trusted
+  flag allocates
+  modifies gWatches, gWatchKey, gWatchPrefix
+  ensures w != nil && ifaceVal(w) != 0 && gWatches == old(gWatches) + 1 && gWatchKey == key && gWatchPrefix == prefix
+
 func (s *syncer) run(key string, prefix bool, send func(data map[string]*mvccpb.KeyValue))
   flag frame=unchecked
+  flag allocates
+  requires s != nil && s.cluster != nil
+  ensures one-round-at-start-and-one-per-tick-and-per-change: gPCS == old(gPCS) + 1 + (gTicks - old(gTicks)) + (gChanges - old(gChanges))
+  ensures every-cancelled-watch-is-replaced-on-the-same-key: gWatches == old(gWatches) + 1 + (gCancels - old(gCancels)) && gWatchKey == key && gWatchPrefix == prefix
+  invariant[1] gPCS == old(gPCS) + 1 + (gTicks - old(gTicks)) + (gChanges - old(gChanges)) && gWatches == old(gWatches) + 1 + (gCancels - old(gCancels)) && gWatchKey == key && gWatchPrefix == prefix && watcher != nil
+  ghost at call pullCompareSend: gPCS := gPCS + 1
+  ghost at select-case[2]: gTicks := gTicks + 1
+  ghost at select-case[3]: gChanges := gChanges + ((resp.Canceled || (len(resp.Events) == 0 && !resp.Created && resp.CompactRevision == 0 && resp.Header.Revision != 0)) ? 0 : 1)
+  ghost at select-case[3]: gCancels := gCancels + (resp.Canceled ? 1 : 0)
   closure[1] ()
+    flag use=contract
     requires s != nil && s.cluster != nil
     modifies sentCount, lastSent, gPulled, gPullFailed, gReadErr, gReadResp, gRead
     ensures only-content-that-was-read-from-the-store-is-delivered: sentCount > old(sentCount) ==> gRead && gReadErr == nil
@@ -141,4 +167,67 @@ pred cfgVersionKey() := configVersion
 func (l *Layout) ConfigVersion() (k string)
   pure
   ensures k == configVersion
+
+// ---- C19: what the four Sync adapters put on their channel for one snapshot handed over by run ----
+// exactly one item per snapshot; the item says of the watched key (or of every key of the snapshot) what the
+// snapshot says: absent stays absent, a value is the stored value, nothing is added or left out
+ghost var gSends int
+ghost var gSentNil bool
+ghost var gSentStr string
+ghost var gSentKV int
+ghost var gSentMap int
+
+func (s *syncer) Sync(key string) (ch <-chan *string, err error)
+  flag frame=unchecked
+  flag allocates
+  closure[1] (data map[string]*mvccpb.KeyValue)
+    flag allocates
+    flag frame=unchecked
+    requires forall k string :: (k in data) ==> data[k] != nil
+    ensures one-item-per-snapshot: gSends == old(gSends) + 1
+    ensures absent-key-is-delivered-as-nil: !(key in data) ==> gSentNil
+    ensures present-key-is-delivered-with-its-stored-value: (key in data) ==> !gSentNil && gSentStr == str(data[key].Value)
+    ghost at send: gSends := gSends + 1
+    ghost at send: gSentNil := sent == nil
+    ghost at send: gSentStr := (sent == nil ? "" : *sent)
+  end
+
+func (s *syncer) SyncRaw(key string) (ch <-chan *mvccpb.KeyValue, err error)
+  flag frame=unchecked
+  flag allocates
+  closure[1] (data map[string]*mvccpb.KeyValue)
+    flag frame=unchecked
+    ensures one-item-per-snapshot: gSends == old(gSends) + 1
+    ensures the-snapshots-entry-is-delivered-as-it-is: gSentKV == ((key in data) ? ref(data[key]) : 0)
+    ghost at send: gSends := gSends + 1
+    ghost at send: gSentKV := ref(sent)
+  end
+
+func (s *syncer) SyncRawPrefix(prefix string) (ch <-chan map[string]*mvccpb.KeyValue, err error)
+  flag frame=unchecked
+  flag allocates
+  closure[1] (data map[string]*mvccpb.KeyValue)
+    flag allocates
+    flag frame=unchecked
+    requires data != nil
+    ensures one-item-per-snapshot: gSends == old(gSends) + 1
+    ensures a-copy-with-exactly-the-snapshots-entries: gSentMap != 0 && gSentMap != ref(data) && (forall k string :: ((k in m) <==> (k in data)) && ((k in data) ==> m[k] == data[k]))
+    ghost at send: gSends := gSends + 1
+    ghost at send: gSentMap := ref(sent)
+    invariant[1] m != nil && fresh(m) && unchanged$1 && (forall k string :: (k in m) <==> (exists j int :: 0 <= j && j < idx$1 && keys$1[j] == k)) && (forall j int :: 0 <= j && j < idx$1 ==> m[keys$1[j]] == data[keys$1[j]])
+  end
+
+func (s *syncer) SyncPrefix(prefix string) (ch <-chan map[string]string, err error)
+  flag frame=unchecked
+  flag allocates
+  closure[1] (data map[string]*mvccpb.KeyValue)
+    flag allocates
+    flag frame=unchecked
+    requires data != nil && (forall k string :: (k in data) ==> data[k] != nil)
+    ensures one-item-per-snapshot: gSends == old(gSends) + 1
+    ensures exactly-the-snapshots-keys-each-with-its-stored-value: gSentMap != 0 && (forall k string :: ((k in m) <==> (k in data)) && ((k in data) ==> m[k] == str(data[k].Value)))
+    ghost at send: gSends := gSends + 1
+    ghost at send: gSentMap := ref(sent)
+    invariant[1] m != nil && fresh(m) && unchanged$1 && (forall k string :: (k in m) <==> (exists j int :: 0 <= j && j < idx$1 && keys$1[j] == k)) && (forall j int :: 0 <= j && j < idx$1 ==> m[keys$1[j]] == str(data[keys$1[j]].Value))
+  end
 @*/
